@@ -99,6 +99,7 @@ func checkC04(c *Ctx) {
 	checkResponseDispatch(c, ev)
 	checkResponseGo(c, gen)
 	checkMediaFamilies(c, "C04.R3.media", gen)
+	checkMediaTable(c, "C04.R3.media-table", gen)
 	checkDefaultMedia(c, gen)
 	checkDiscriminatorAgreement(c, "C04.R3.discriminator", gen)
 }
@@ -867,5 +868,83 @@ func checkHeaderWriterGuards(c *Ctx, ev *tmpl.Evaluator) {
 	}
 	if n == 0 {
 		c.Unk(rule, "server/responses.gotmpl › header writes", "", "no rw.Header().Set found")
+	}
+}
+
+// mediaSamples: media types whose serializer is not a matter of taste. The table is read from the
+// source (pattern literals, in order, first match wins) and evaluated on them.
+var mediaSamples = []struct{ media, want, why string }{
+	{"application/json", "json", "the JSON media type"},
+	{"application/vnd.api+json", "json", "a +json structured suffix"},
+	{"application/xml", "xml", "the XML media type"},
+	{"text/xml", "xml", "the XML media type (text)"},
+	{"application/atom+xml", "xml", "a +xml structured suffix"},
+	{"application/octet-stream", "bin", "bytes"},
+	{"application/vnd.openxmlformats-officedocument.wordprocessingml.document", "!xml", "a .docx is a zip archive: `xml` inside the subtype does not make the payload XML"},
+	{"application/vnd.openxmlformats-officedocument.spreadsheetml.sheet", "!xml", "a .xlsx is a zip archive"},
+}
+
+// checkMediaTable: the serializer a media type gets is the name of the first row of
+// mediaTypeNames whose pattern matches. A pattern that matches in the middle of a subtype hands
+// a binary document to the XML (or JSON) codec: the payload does not arrive as it was sent.
+func checkMediaTable(c *Ctx, rule string, gen *packages.Package) {
+	c.Rule(rule, "the rows of mediaTypeNames, evaluated in order on sample media types, name the serializer of the payload's actual encoding (XML only when the type or its structured suffix is xml)", len(mediaSamples))
+	var lit *ast.CompositeLit
+	for _, f := range gen.Syntax {
+		for _, d := range f.Decls {
+			gd, ok := d.(*ast.GenDecl)
+			if !ok {
+				continue
+			}
+			for _, sp := range gd.Specs {
+				if vs, ok := sp.(*ast.ValueSpec); ok && len(vs.Names) == 1 && vs.Names[0].Name == "mediaTypeNames" && len(vs.Values) == 1 {
+					lit, _ = vs.Values[0].(*ast.CompositeLit)
+				}
+			}
+		}
+	}
+	if lit == nil {
+		c.Anchor(rule, "generator.mediaTypeNames", "not found")
+		return
+	}
+	type row struct {
+		rx   *regexp.Regexp
+		name string
+	}
+	var rows []row
+	for _, el := range lit.Elts {
+		cl, ok := el.(*ast.CompositeLit)
+		if !ok || len(cl.Elts) != 2 {
+			c.Unk(rule, "generator.mediaTypeNames › row", c.posOf(gen, el.Pos()), "row is not {pattern, name}")
+			return
+		}
+		call, ok := ast.Unparen(cl.Elts[0]).(*ast.CallExpr)
+		if !ok || len(call.Args) != 1 {
+			c.Unk(rule, "generator.mediaTypeNames › row", c.posOf(gen, el.Pos()), "pattern is not regexp.MustCompile(<constant>)")
+			return
+		}
+		pat, ok1 := goan.StringVal(gen.TypesInfo, call.Args[0])
+		name, ok2 := goan.StringVal(gen.TypesInfo, cl.Elts[1])
+		rx, err := regexp.Compile(pat)
+		if !ok1 || !ok2 || err != nil {
+			c.Unk(rule, "generator.mediaTypeNames › row", c.posOf(gen, el.Pos()), "pattern or name is not a constant")
+			return
+		}
+		rows = append(rows, row{rx, name})
+	}
+	for _, s := range mediaSamples {
+		got := ""
+		for _, r := range rows {
+			if r.rx.MatchString(s.media) {
+				got = r.name
+				break
+			}
+		}
+		ok := got == s.want
+		if strings.HasPrefix(s.want, "!") {
+			ok = got != s.want[1:]
+		}
+		c.Check(ok, rule, "generator.mediaTypeNames › "+s.media, c.posOf(gen, lit.Pos()), "serializer "+s.want+" ("+s.why+")",
+			fmt.Sprintf("%s is given the %q serializer by the first matching row, expected %s (%s): server and client run the payload through the wrong codec, and it does not arrive as sent", s.media, got, s.want, s.why))
 	}
 }
